@@ -99,6 +99,9 @@ pub fn full_alphabet(nrep: usize, ndocs: usize) -> Vec<Op> {
         v.push(Op::ObjPut(r, 1));
         v.push(Op::ObjPut(r, 2));
         v.push(Op::ObjDel(r));
+        v.push(Op::ObjRemove(r, 0));
+        v.push(Op::ObjRemove(r, 1));
+        v.push(Op::Read(r));
         for k in 0..4 {
             v.push(Op::Travel(r, k));
         }
